@@ -1,5 +1,292 @@
 import RtcVerif.Model.C12
+import RtcVerif.Proofs.C12Lemmas
+/-!
+# C12 — one time axis relative to t0; exports contain the results at the right times
+
+Property theorems about `Model/C12.lean` (any number of import stamps, any position of t0 among
+them, any ensemble size, any values incl. NaN).  Helper lemmas: `Proofs/C12Lemmas.lean`.
+`Inc l` = the stamps are strictly increasing (what the mixins validate on reading).
+-/
 namespace RtcVerif.C12
+
+/-! ## the seconds axis and the data store -/
+
+/-- **A value stored for a datetime is the value retrieved at the corresponding offset, for every
+    ensemble member.**  After `io.set_timeseries(v, datetimes, x, m)`: `get_timeseries_sec(v, m)`
+    returns `x` on the axis `datetimes - reference`, so the value belonging to datetime `d` is found
+    at offset `d - reference`; every other (member, variable) is untouched. -/
+theorem C12_get_after_set (dts : List Int) (ref : Int) (ts : List Int)
+    (hts : timesSec dts ref = some ts) (st st' : Store) (m v : Nat) (x : List XVal)
+    (hset : ioSet dts.length st m v x = some st') :
+    ioGet st' m v = some x ∧
+    (∀ d, lookupAt ts x (d - ref) = lookupAt dts x d) ∧
+    (∀ m' v', (m', v') ≠ (m, v) → ioGet st' m' v' = ioGet st m' v') := by
+  unfold timesSec at hts
+  split at hts
+  · simp only [Option.some.injEq] at hts
+    subst hts
+    unfold ioSet at hset
+    split at hset
+    · cases hset
+    · simp only [Option.some.injEq] at hset
+      subst hset
+      have hlen : m < (st ++ List.replicate (m + 1 - st.length) ([] : Series)).length := by
+        simp only [List.length_append, List.length_replicate]; omega
+      refine ⟨?_, fun d => lookup_map_sub dts x ref d, ?_⟩
+      · unfold ioGet
+        rw [List.getElem?_modify_eq, List.getElem?_eq_getElem hlen]
+        simp [sget_sset_same]
+      · intro m' v' hne
+        unfold ioGet
+        by_cases hm : m' = m
+        · subst hm
+          have hv : v' ≠ v := fun h => hne (by rw [h])
+          rw [List.getElem?_modify_eq, List.getElem?_eq_getElem hlen]
+          simp only [Option.map_eq_map, Option.map_some]
+          rw [sget_sset_other v v' hv]
+          by_cases hlt : m' < st.length
+          · rw [List.getElem_append_left hlt, List.getElem?_eq_getElem hlt]
+          · rw [List.getElem_append_right (Nat.le_of_not_lt hlt),
+              List.getElem?_eq_none (Nat.le_of_not_lt hlt)]
+            simp [sget]
+        · rw [List.getElem?_modify_ne _ _ (fun h => hm h.symm)]
+          by_cases hlt : m' < st.length
+          · rw [List.getElem?_append_left hlt]
+          · rw [List.getElem?_append_right (Nat.le_of_not_lt hlt),
+              List.getElem?_eq_none (Nat.le_of_not_lt hlt)]
+            by_cases h2 : m' - st.length < m + 1 - st.length
+            · rw [List.getElem?_replicate]
+              simp [h2, sget]
+            · rw [List.getElem?_eq_none (by simp; omega)]
+  · cases hts
+
+/-- the reference datetime must be one of the import stamps; then offset 0 is on the axis -/
+theorem C12_reference_on_axis (dts : List Int) (ref : Int) :
+    (ref ∉ dts → timesSec dts ref = none) ∧
+    (ref ∈ dts → ∃ ts, timesSec dts ref = some ts ∧ (0 : Int) ∈ ts ∧ ts.length = dts.length) := by
+  constructor
+  · intro h; simp [timesSec, h]
+  · intro h
+    refine ⟨dts.map (· - ref), by simp [timesSec, h], ?_, by simp⟩
+    rw [List.mem_map]
+    exact ⟨ref, h, by omega⟩
+
+/-! ## horizon and history -/
+
+/-- **The horizon starts at t0**: `times()` is exactly the stamps at or after the reference
+    datetime, and its first entry is 0. -/
+theorem C12_horizon_starts_at_t0 (dts : List Int) (hinc : Inc dts) (ref : Int) (ts : List Int)
+    (hts : timesSec dts ref = some ts) :
+    horizon ts = ts.filter (fun t => decide (0 ≤ t)) ∧ (horizon ts).head? = some 0 ∧
+    ∀ t ∈ horizon ts, 0 ≤ t := by
+  unfold timesSec at hts
+  split at hts
+  · rename_i href
+    simp only [Option.some.injEq] at hts
+    subst hts
+    have hi := inc_map_sub dts hinc ref
+    have h0 : (0 : Int) ∈ dts.map (· - ref) := by
+      rw [List.mem_map]; exact ⟨ref, href, by omega⟩
+    have hd := drop_bisect _ hi 0
+    refine ⟨hd, ?_, ?_⟩
+    · unfold horizon
+      have hg := get_bisect _ hi 0 h0
+      rw [List.head?_drop]
+      exact hg
+    · intro t ht
+      unfold horizon at ht
+      rw [hd, List.mem_filter] at ht
+      simpa using ht.2
+  · cases hts
+
+/-- **History is what lies at or before t0**: its stamps are exactly the stamps `≤ 0`, and its
+    values are the stored values of those stamps. -/
+theorem C12_history_is_up_to_t0 (dts : List Int) (hinc : Inc dts) (ref : Int) (ts : List Int)
+    (hts : timesSec dts ref = some ts) (vals : List XVal) (hl : vals.length = ts.length) :
+    (history ts vals).1 = ts.filter (fun t => decide (t ≤ 0)) ∧
+    (history ts vals).2 = vals.take (history ts vals).1.length ∧
+    (∀ t ∈ (history ts vals).1, lookupAt (history ts vals).1 (history ts vals).2 t = lookupAt ts vals t) := by
+  unfold timesSec at hts
+  split at hts
+  · rename_i href
+    simp only [Option.some.injEq] at hts
+    subst hts
+    have hi := inc_map_sub dts hinc ref
+    have h0 : (0 : Int) ∈ dts.map (· - ref) := by
+      rw [List.mem_map]; exact ⟨ref, href, by omega⟩
+    generalize dts.map (· - ref) = ts at hi h0 hl
+    have ht := take_bisect_succ ts hi 0 h0
+    have hk : histLen ts ≤ ts.length := by
+      have := bisect_lt_length ts 0 h0
+      unfold histLen; omega
+    refine ⟨ht, ?_, ?_⟩
+    · simp only [history, List.length_take]
+      congr 1
+      unfold histLen at hk ⊢
+      omega
+    · intro t _
+      simp only [history]
+      -- lookup in a common prefix of both lists
+      have key : ∀ (k : Nat) (a : List Int) (b : List XVal) (t : Int), t ∈ a.take k →
+          lookupAt (a.take k) (b.take k) t = lookupAt a b t := by
+        intro k a
+        induction a generalizing k with
+        | nil => intro b t h; simp at h
+        | cons y l ih =>
+          intro b t h
+          cases k with
+          | zero => simp at h
+          | succ k =>
+            cases b with
+            | nil => simp [lookupAt]
+            | cons v vs =>
+              simp only [List.take_succ_cons, lookupAt]
+              by_cases hy : y = t
+              · simp [hy]
+              · rw [if_neg hy, if_neg hy]
+                simp only [List.take_succ_cons, List.mem_cons] at h
+                rcases h with rfl | h
+                · exact absurd rfl hy
+                · exact ih k vs t h
+      exact key _ _ _ _ (by assumption)
+  · cases hts
+
+/-- **Bound series named `<var>_Min` / `<var>_Max` bound `<var>` from t0 on**: the bound handed to
+    the problem lives on the horizon stamps, and at every horizon stamp it is the stored value of
+    that stamp — a missing value meaning "no bound" (∓ the largest float). -/
+theorem C12_bound_series_bind_var (dts : List Int) (hinc : Inc dts) (ref : Int) (ts : List Int)
+    (hts : timesSec dts ref = some ts) (vals : List XVal) (lower : Bool) (big : Rat) :
+    (boundSeries ts vals lower big).1 = horizon ts ∧
+    ∀ t ∈ horizon ts,
+      lookupAt (boundSeries ts vals lower big).1 (boundSeries ts vals lower big).2 t
+        = (lookupAt ts vals t).map
+            (fun v => if v = XVal.nan then XVal.fin (if lower then -big else big) else v) := by
+  unfold timesSec at hts
+  split at hts
+  · cases hts
+    have hi := inc_map_sub dts hinc ref
+    refine ⟨rfl, ?_⟩
+    intro t ht
+    simp only [boundSeries]
+    rw [lookup_map, lookup_drop _ hi vals _ t ht]
+  · cases hts
+
+/-! ## set_timeseries -/
+
+/-- **Series set without time stamps start at t0**: a bare array with one value per horizon stamp
+    is accepted; its `j`-th value is retrieved at the `j`-th stamp of the horizon, and every stamp
+    before t0 holds NaN. -/
+theorem C12_set_without_times_starts_at_t0 (dts : List Int) (hinc : Inc dts) (ref : Int)
+    (ts : List Int) (hts : timesSec dts ref = some ts) (values : List XVal) (check : Bool)
+    (hlen : values.length = (horizon ts).length) :
+    ∃ r, setTs ts (.arr values) check = some r ∧ r.length = ts.length ∧
+      (∀ j (hj : j < (horizon ts).length), lookupAt ts r ((horizon ts)[j]) = values[j]?) ∧
+      (∀ t ∈ ts, t < 0 → lookupAt ts r t = some XVal.nan) := by
+  unfold timesSec at hts
+  split at hts
+  · rename_i href
+    simp only [Option.some.injEq] at hts
+    subst hts
+    have hi := inc_map_sub dts hinc ref
+    have h0 : (0 : Int) ∈ dts.map (· - ref) := by
+      rw [List.mem_map]; exact ⟨ref, href, by omega⟩
+    generalize dts.map (· - ref) = ts at hi h0 hlen
+    have hk := bisect_lt_length ts 0 h0
+    have hhl : (horizon ts).length = ts.length - bisectLeft ts 0 := by simp [horizon]
+    have hfit : bisectLeft ts 0 + values.length ≤ ts.length := by omega
+    refine ⟨nans (bisectLeft ts 0) ++ values ++ nans (ts.length - bisectLeft ts 0 - values.length), ?_, ?_, ?_, ?_⟩
+    · simp only [setTs]
+      have : ((horizon ts).length != values.length) = false := by simp [hlen]
+      simp only [this, Bool.and_false, Bool.false_eq_true, if_false, stretch, hfit, if_true]
+    · simp only [List.length_append, nans_length]; omega
+    · intro j hj
+      have hmem : (horizon ts)[j] ∈ ts := List.mem_of_mem_drop (List.getElem_mem hj)
+      have hrl : (nans (bisectLeft ts 0) ++ values ++ nans (ts.length - bisectLeft ts 0 - values.length)).length
+          = ts.length := by simp only [List.length_append, nans_length]; omega
+      rw [lookup_eq_get ts hi _ hrl _ hmem]
+      -- position of the j-th horizon stamp
+      have hpos : bisectLeft ts ((horizon ts)[j]) = bisectLeft ts 0 + j := by
+        have hg := get_bisect ts hi _ hmem
+        have hg2 : ts[bisectLeft ts 0 + j]? = some ((horizon ts)[j]) := by
+          have : (horizon ts)[j]? = some ((horizon ts)[j]) := List.getElem?_eq_getElem hj
+          simp [horizon, List.getElem?_drop] at this ⊢
+        have hnd := inc_nodup ts hi
+        have hb := bisect_lt_length ts _ hmem
+        have hlt : bisectLeft ts 0 + j < ts.length := by omega
+        rw [List.getElem?_eq_getElem hb] at hg
+        rw [List.getElem?_eq_getElem hlt] at hg2
+        have e : ts[bisectLeft ts ((horizon ts)[j])] = ts[bisectLeft ts 0 + j] := by
+          rw [Option.some.inj hg, Option.some.inj hg2]
+        exact (List.getElem_inj hnd).1 e
+      rw [hpos, List.append_assoc, List.getElem?_append_right (by simp [nans_length])]
+      simp only [nans_length, Nat.add_sub_cancel_left]
+      rw [List.getElem?_append_left (by omega)]
+    · intro t ht hneg
+      have hrl : (nans (bisectLeft ts 0) ++ values ++ nans (ts.length - bisectLeft ts 0 - values.length)).length
+          = ts.length := by simp only [List.length_append, nans_length]; omega
+      rw [lookup_eq_get ts hi _ hrl _ ht]
+      have hlt : bisectLeft ts t < bisectLeft ts 0 := by
+        -- t is among the stamps dropped by the horizon
+        by_contra hge
+        have hge' : bisectLeft ts 0 ≤ bisectLeft ts t := Nat.le_of_not_lt hge
+        have hg := get_bisect ts hi t ht
+        have : t ∈ ts.drop (bisectLeft ts 0) := by
+          rw [List.mem_iff_getElem?]
+          refine ⟨bisectLeft ts t - bisectLeft ts 0, ?_⟩
+          rw [List.getElem?_drop]
+          rw [show bisectLeft ts 0 + (bisectLeft ts t - bisectLeft ts 0) = bisectLeft ts t by omega]
+          exact hg
+        rw [drop_bisect ts hi 0, List.mem_filter] at this
+        have := this.2
+        simp only [decide_eq_true_eq] at this
+        omega
+      rw [List.append_assoc, List.getElem?_append_left (by simpa [nans_length] using hlt)]
+      simp [nans, hlt]
+  · cases hts
+
+/-- **Alignment of a series with its own stamps** (repaired code): for any subset of the import
+    stamps given in any order without repetition — consecutive or with gaps — the value belonging
+    to stamp `s` is retrieved at `s`, and every other import stamp holds NaN. -/
+theorem C12_set_alignment (ts : List Int) (hinc : Inc ts) (times : List Int) (values : List XVal)
+    (check : Bool) (hne : times ≠ []) (hsub : ∀ t ∈ times, t ∈ ts) (hnd : times.Nodup)
+    (hlen : values.length = times.length) :
+    ∃ r, setTs ts (.ts times values) check = some r ∧ r.length = ts.length ∧
+      (∀ i (hi : i < times.length), lookupAt ts r (times[i]) = values[i]?) ∧
+      (∀ t ∈ ts, t ∉ times → lookupAt ts r t = some XVal.nan) := by
+  by_cases heq : times = ts
+  · subst heq
+    refine ⟨values, by simp [setTs, hlen], hlen, ?_, fun t ht hnt => absurd ht hnt⟩
+    intro i hi
+    rw [lookup_eq_get times hinc values hlen _ (List.getElem_mem hi)]
+    have hg := get_bisect times hinc _ (List.getElem_mem hi)
+    have hb := bisect_lt_length times _ (List.getElem_mem hi)
+    rw [List.getElem?_eq_getElem hb] at hg
+    have := (List.getElem_inj hnd).1 (Option.some.inj hg)
+    rw [this]
+  · have hsubset : (times.all (fun t => ts.contains t)) = true := by
+      rw [List.all_eq_true]
+      intro t ht
+      simpa using hsub t ht
+    obtain ⟨t0, rest, rfl⟩ := List.exists_cons_of_ne_nil hne
+    have hacc : (nans ts.length).length = ts.length := nans_length _
+    refine ⟨scatter ts (t0 :: rest) values (nans ts.length), ?_, ?_, ?_, ?_⟩
+    · simp only [setTs]
+      rw [if_neg (by omega), if_neg heq]
+      simp only [hsubset, Bool.not_true, Bool.and_false, Bool.false_eq_true, if_false, if_true]
+    · rw [scatter_length, hacc]
+    · intro i hi
+      have hmem := hsub _ (List.getElem_mem hi)
+      rw [lookup_eq_get ts hinc _ (by rw [scatter_length, hacc]) _ hmem]
+      exact scatter_at ts hinc (t0 :: rest) values _ hsub hnd hlen hacc i hi
+    · intro t ht hnt
+      rw [lookup_eq_get ts hinc _ (by rw [scatter_length, hacc]) _ ht]
+      rw [scatter_other ts (t0 :: rest) values _ _ (by
+        intro t' ht' e
+        have := bisect_inj ts hinc t' t (hsub t' ht') ht e
+        subst this
+        exact hnt ht')]
+      have hb := bisect_lt_length ts t ht
+      simp [nans, hb]
 
 /-- finding F15 (code before 614ae95): import stamps -1,0,1,2,3 and a series with the stamps 0 and
     2 — the value for stamp 2 was stored (and retrieved) at stamp 1; the repaired code stores it
@@ -10,5 +297,105 @@ theorem C12_set_alignment_legacy_witness :
     setTs [-1, 0, 1, 2, 3] (.ts [0, 2] [XVal.fin 10, XVal.fin 20]) true
       = some [XVal.nan, XVal.fin 10, XVal.nan, XVal.fin 20, XVal.nan] := by
   decide +kernel
+
+/-- inconsistent calls are rejected under `check_consistency`: stamps that are not import stamps,
+    or a bare array whose length is not the forecast length -/
+theorem C12_set_rejects_inconsistent (ts : List Int) :
+    (∀ times values, times ≠ ts → (∃ t ∈ times, t ∉ ts) →
+        setTs ts (.ts times values) true = none) ∧
+    (∀ values, values.length ≠ (horizon ts).length → setTs ts (.arr values) true = none) := by
+  constructor
+  · intro times values hne ⟨t, ht, hnt⟩
+    have : (times.all (fun t => ts.contains t)) = false := by
+      rw [List.all_eq_false]
+      exact ⟨t, ht, by simpa using hnt⟩
+    simp only [setTs]
+    split
+    · rfl
+    · rw [this]; rfl
+  · intro values hl
+    simp only [setTs]
+    have : ((horizon ts).length != values.length) = true := by
+      simp only [bne_iff_ne, ne_eq]
+      omega
+    simp [this]
+
+/-! ## exports -/
+
+/-- **Exported rows carry the right time stamps**: row `j` of the CSV/PI export is labelled
+    `reference + times()[j]`; these labels are exactly the import datetimes from t0 on; and row `j`
+    holds the `j`-th result.  The NetCDF writer (all import stamps relative to the first one,
+    labelled from the reference) produces the same axis when t0 is the first import stamp. -/
+theorem C12_export_times (dts : List Int) (hinc : Inc dts) (ref : Int) (ts : List Int)
+    (hts : timesSec dts ref = some ts) (results : List XVal)
+    (hres : results.length = (horizon ts).length) :
+    exportStamps ref ts = dts.filter (fun d => decide (ref ≤ d)) ∧
+    (∀ j (hj : j < (horizon ts).length),
+        (exportRows ref ts results)[j]? = some (ref + (horizon ts)[j], results[j]'(by omega))) ∧
+    (dts.head? = some ref → ncExportStamps dts ref = exportStamps ref ts) := by
+  unfold timesSec at hts
+  split at hts
+  · rename_i href
+    simp only [Option.some.injEq] at hts
+    subst hts
+    have hi := inc_map_sub dts hinc ref
+    have hstamps : exportStamps ref (dts.map (· - ref)) = dts.filter (fun d => decide (ref ≤ d)) := by
+      unfold exportStamps horizon
+      rw [drop_bisect _ hi 0, List.filter_map, List.map_map]
+      have : ((fun x => x + ref) ∘ fun x => x - ref) = id := by
+        funext x; simp
+      rw [this, List.map_id]
+      congr 1
+      funext d
+      simp only [Function.comp]
+      congr 1
+      apply propext
+      constructor <;> intro h <;> omega
+    refine ⟨hstamps, ?_, ?_⟩
+    · intro j hj
+      unfold exportRows exportStamps
+      rw [List.getElem?_zip_eq_some]
+      constructor
+      · rw [List.getElem?_map, List.getElem?_eq_getElem hj]
+        simp only [Option.map_some, Option.some.injEq]
+        omega
+      · exact List.getElem?_eq_getElem (by omega)
+    · intro hhead
+      rw [hstamps]
+      cases dts with
+      | nil => cases hhead
+      | cons d0 l =>
+        simp only [List.head?_cons, Option.some.injEq] at hhead
+        subst hhead
+        simp only [ncExportStamps]
+        have hall : ∀ d ∈ d0 :: l, d0 ≤ d := by
+          intro d hd
+          rcases List.mem_cons.1 hd with rfl | hd
+          · exact le_refl _
+          · exact le_of_lt ((List.pairwise_cons.1 hinc).1 d hd)
+        rw [List.filter_eq_self.2 (fun d hd => by simpa using hall d hd)]
+        conv_rhs => rw [← List.map_id (d0 :: l)]
+        apply List.map_congr_left
+        intro d _
+        simp
+  · cases hts
+
+/-- candidate finding C12-N2 (witness): with t0 on the second of three import stamps the NetCDF
+    axis runs one stamp past the end of the import series, while CSV/PI export the stamps from t0 -/
+theorem C12_export_netcdf_moved_reference_witness :
+    ncExportStamps [0, 3600, 7200] 3600 = [3600, 7200, 10800] ∧
+    (timesSec [0, 3600, 7200] 3600).map (exportStamps 3600) = some [3600, 7200] := by
+  decide +kernel
+
+/-! ## non-vacuity -/
+
+example : Inc [100, 200, 300, 450] ∧ timesSec [100, 200, 300, 450] 200 = some [-100, 0, 100, 250] := by
+  decide
+
+example : setTs [-100, 0, 100, 250] (.ts [250, 0] [XVal.fin 7, XVal.nan]) true
+    = some [XVal.nan, XVal.nan, XVal.nan, XVal.fin 7] := by decide +kernel
+
+example : setTs [-100, 0, 100, 250] (.arr [XVal.fin 1, XVal.fin 2, XVal.fin 3]) true
+    = some [XVal.nan, XVal.fin 1, XVal.fin 2, XVal.fin 3] := by decide +kernel
 
 end RtcVerif.C12
